@@ -1931,6 +1931,9 @@ dnslabel_table_add(struct dnslabel_table *table, const char *label, off_t pos)
 	int p;
 	if (table->n_labels == MAX_LABELS)
 		return (-1);
+	/* a compression pointer has 14 bits: later offsets cannot be referenced */
+	if (pos > 0x3fff)
+		return (-1);
 	v = mm_strdup(label);
 	if (v == NULL)
 		return (-1);
